@@ -40,13 +40,47 @@ def all_pairs():
     return ps
 
 
+# three operations at once, from the situation "k2 parked in its receive with RDY 1, queue empty": what a message that
+# is put back (timeout scan) or discarded (Empty) while k2 waits for it does to the attribution of in-flight messages
+# The third actor (k2's pump) is FREE: TLC places its steps everywhere the model allows, the replayer does not gate it
+# -- it takes a message the moment one reaches the queue, as a waiting consumer does.  Schedules that differ only in
+# where k2's steps fall are one replay; the real outcome must be among TLC's outcomes for that replay.
+TRIPLES = [("SCAN", "EMPTY", "DELIVERQ", "k2waiting"), ("SCAN", "NONE", "DELIVERQ", "k2waiting"),
+           ("REQ0", "NONE", "DELIVERQ", "k2waiting"), ("REQ0", "EMPTY", "DELIVERQ", "k2waiting"),
+           ("TOUCH", "EMPTY", "DELIVERQ", "k2waiting"), ("FIN", "EMPTY", "DELIVERQ", "k2waiting")]
+
+SEGS = {"FIN": 3, "FIN2": 3, "REQ0": 4, "TOUCH": 4, "SCAN": 3, "DELIVER": 4, "EMPTY": 3, "EXIT": 4, "DELIVERQ": 4, "NONE": 0}
+
+
+def early_releases(ops, sched):
+    """Positions at which an actor waiting for the channel lock is let go ahead of its turn.
+
+    NsqdCore schedules the last segment of SCAN (it starts by taking the channel's read lock) only once the lock is
+    free.  The real goroutine would not sit at the yield point meanwhile: it would be blocked ON the lock, having run
+    whatever precedes the acquisition.  So while an EMPTY holds the lock (its segments 2..3) a SCAN that has reached
+    its last yield point is released early; in code that conforms to NsqdCore nothing observable happens before the
+    lock, and the outcome is the one TLC predicts."""
+    pcs = {x: 1 for x in ops}
+    out, done = [], set()
+    for i, x in enumerate(sched):
+        pcs[x] += 1
+        holder = [y for y in ops if ops[y] == "EMPTY" and 2 <= pcs[y] <= 3]
+        for y in ops:
+            if ops[y] == "SCAN" and pcs[y] == 3 and holder and y not in done:
+                done.add(y)
+                out.append({"after": i + 1, "actor": y})
+    return out
+
+
 def enumerate_schedules(ctx, pairs):
     cases = []
-    for a, b in pairs:
-        cfg = "NsqdCore_%s_%s.cfg" % (a, b)
+    for tup in pairs:
+        a, b = tup[0], tup[1]
+        c3, situation = (tup[2], tup[3]) if len(tup) > 2 else ("NONE", "std")
+        cfg = "NsqdCore_%s_%s_%s.cfg" % (a, b, c3)
         with open(os.path.join(ctx.specdir, cfg), "w") as f:
-            f.write('SPECIFICATION Spec\nCONSTANTS\n  OpA = "%s"\n  OpB = "%s"\n  Guarded = TRUE\n  PerMessage = TRUE\n  ExitGuard = TRUE\nCONSTRAINT Emit\nCHECK_DEADLOCK FALSE\n' % (a, b))
-        r = ctx.tlc("NsqdCore", cfg, workers=1, timeout=300, label="pairs %s|%s" % (a, b))
+            f.write('SPECIFICATION Spec\nCONSTANTS\n  OpA = "%s"\n  OpB = "%s"\n  OpC = "%s"\n  Situation = "%s"\n  Guarded = TRUE\n  PerMessage = TRUE\n  ExitGuard = TRUE\nCONSTRAINT Emit\nCHECK_DEADLOCK FALSE\n' % (a, b, c3, situation))
+        r = ctx.tlc("NsqdCore", cfg, workers=1, timeout=300, label="pairs %s|%s|%s" % (a, b, c3))
         if r.crashed:
             raise Inconclusive("NsqdCore failed for %s|%s:\n%s" % (a, b, r.out[-2000:]))
         ctx.cov["states"] += r.distinct
@@ -54,18 +88,38 @@ def enumerate_schedules(ctx, pairs):
         n = 0
         for t in r.prints("SCHED"):
             v = [x.strip('"') for x in t]
-            # opA opB sched... crashed nifm nq cnt1 cnt2 nheap fin disk1 disk2
-            tail = v[-9:]
-            sched = v[2:-9]
+            # opA opB opC situation sched... crashed nifm nq cnt1 cnt2 nheap fin disk1 disk2 nifm1 nifm2
+            tail = v[-11:]
+            sched = v[4:-11]
             n += 1
             if b == "EXIT" and (sched[0] != "A" or a in ("FIN", "REQ0", "TOUCH") and False):
                 continue      # the shutdown closes the client connections first: X must have started before it
-            cases.append({"opA": v[0], "opB": v[1], "sched": sched, "crashed": tail[0] == "TRUE", "nifm": int(tail[1]),
+            ops = {"A": v[0], "B": v[1]}
+            if v[2] != "NONE":
+                ops["C"] = v[2]
+            cases.append({"opA": v[0], "opB": v[1], "opC": v[2], "situation": v[3], "sched": sched,
+                          "early": early_releases(ops, sched),
+                          "crashed": tail[0] == "TRUE", "nifm": int(tail[1]),
                           "nq": int(tail[2]), "cnt1": int(tail[3]), "cnt2": int(tail[4]), "nheap": int(tail[5]),
-                          "fin_m1": tail[6] == "TRUE", "disk_m1": tail[7] == "TRUE", "disk_m2": tail[8] == "TRUE"})
+                          "fin_m1": tail[6] == "TRUE", "disk_m1": tail[7] == "TRUE", "disk_m2": tail[8] == "TRUE",
+                          "nifm1": int(tail[9]), "nifm2": int(tail[10])})
         if n == 0:
             raise Inconclusive("no schedule printed for %s|%s" % (a, b))
-    return cases
+    # collapse schedules that differ only in the free actor's steps
+    out, groups = [], {}
+    for c in cases:
+        if c["opC"] == "NONE":
+            out.append(c)
+            continue
+        proj = tuple(x for x in c["sched"] if x != "C")
+        key = (c["opA"], c["opB"], c["opC"], proj)
+        if key not in groups:
+            ops = {"A": c["opA"], "B": c["opB"]}
+            g = dict(c, sched=list(proj), free=["C"], early=early_releases(ops, list(proj)), alternatives=[])
+            groups[key] = g
+            out.append(g)
+        groups[key]["alternatives"].append([c["nifm"] + c["nq"], c["cnt1"], c["cnt2"], c["nifm1"], c["nifm2"], c["fin_m1"], c["crashed"]])
+    return out
 
 
 def replay(ctx, cases, procs=8):
@@ -135,6 +189,8 @@ def judge(ctx, prop, obs):
     for o in obs:
         c = o["case"]
         pair = "%s|%s" % (c["opA"], c["opB"])
+        if c.get("opC", "NONE") != "NONE":
+            pair = "|".join(x for x in (c["opA"], c["opB"], c["opC"]) if x != "NONE")
         sched = "".join(c["sched"])
         bad = []
         if o.get("inconclusive"):
@@ -161,6 +217,10 @@ def judge(ctx, prop, obs):
             if o["cnt1"] < 0 or o["cnt2"] < 0 or o["cnt1"] + o["cnt2"] != o["nifm"]:
                 bad.append(("counter", "connection in-flight counters k1=%d k2=%d but %d message(s) in flight"
                             % (o["cnt1"], o["cnt2"], o["nifm"])))
+            elif "nifm1" in o and (o["cnt1"] != o["nifm1"] or o["cnt2"] != o["nifm2"]):
+                # ... and each connection's counter is the number of messages in flight TO IT
+                bad.append(("counter", "connection in-flight counters k1=%d k2=%d but the channel has %d in flight to k1 and %d to k2"
+                            % (o["cnt1"], o["cnt2"], o["nifm1"], o["nifm2"])))
             # (a heap entry without map entry is harmless: the scan drops it when it comes due)
             if o["nifm"] > o["nheap"] or o["inflight_after_forced_timeouts"] != 0:
                 bad.append(("nodeadline", "in-flight map has %d entries, deadline heap %d; %d still in flight after "
@@ -186,7 +246,11 @@ def judge(ctx, prop, obs):
             elif not o["real_crashed"] and not o.get("blocked"):
                 real = (o["nifm"], o["nq"], o["cnt1"], o["cnt2"], o["nheap"], o["fin_m1"])
                 pred = (c["nifm"], c["nq"], c["cnt1"], c["cnt2"], c["nheap"], c["fin_m1"])
-                if "DELIVER" in (c["opA"], c["opB"]):
+                if c.get("opC", "NONE") != "NONE":
+                    # the free receiver: the real outcome must be one of the outcomes TLC found for this replay
+                    real = [o["nifm"] + o["nq"], o["cnt1"], o["cnt2"], o["nifm1"], o["nifm2"], o["fin_m1"], False]
+                    pred = real if real in c.get("alternatives", []) else c.get("alternatives")
+                elif "DELIVER" in (c["opA"], c["opB"]):
                     # k2 keeps RDY 1 after the modelled delivery and may take one more message from the queue
                     # before the outcome is read: compare what that cannot change
                     real = (o["nifm"] + o["nq"], o["cnt1"], o["fin_m1"])
@@ -207,7 +271,8 @@ def run_pairs(ctx, prop, pairs=None, sample=None):
         import random
         rng = random.Random(ctx.seed)
         # always keep the schedules TLC marks as breaking an invariant of NsqdCore, sample the rest
-        keep = [c for c in cases if c["crashed"] or c["cnt1"] < 0 or c["cnt2"] < 0 or c["cnt1"] + c["cnt2"] != c["nifm"] or c["nifm"] != c["nheap"]]
+        keep = [c for c in cases if c["crashed"] or c["cnt1"] < 0 or c["cnt2"] < 0 or c["cnt1"] + c["cnt2"] != c["nifm"] or c["nifm"] != c["nheap"]
+                or c.get("opC", "NONE") != "NONE"]
         rest = [c for c in cases if c not in keep]
         rng.shuffle(rest)
         cases = keep + rest[:max(0, sample - len(keep))]
@@ -215,7 +280,7 @@ def run_pairs(ctx, prop, pairs=None, sample=None):
     judge(ctx, prop, obs)
     ctx.cov["evaluations"] += len(obs)
     ctx.notes["pair_schedules_replayed"] = len(obs)
-    ctx.notes["pairs"] = ["%s|%s" % p for p in pairs]
+    ctx.notes["pairs"] = ["|".join(x for x in p[:3] if x != "NONE") for p in pairs]
     for o in obs[:2]:
         ctx.sample({"pair_replay": o})
     log("pairs: %d schedules of %d operation pairs replayed on the real daemon" % (len(obs), len(pairs)))
